@@ -46,9 +46,10 @@ type (
 		Type string
 	}
 	Quant struct {
-		Forall bool
-		Vars   []QVar
-		Body   Expr
+		Forall   bool
+		Vars     []QVar
+		Body     Expr
+		Triggers [][]Expr
 	}
 	CondE struct{ C, A, B Expr }
 )
@@ -238,6 +239,18 @@ func (p *parser) expr() Expr {
 			}
 		}
 		p.expect("::")
+		for p.isOp("{") {
+			p.next()
+			var trig []Expr
+			for {
+				trig = append(trig, p.expr())
+				if p.accept("}") {
+					break
+				}
+				p.expect(",")
+			}
+			q.Triggers = append(q.Triggers, trig)
+		}
 		q.Body = p.expr()
 		return q
 	}
@@ -574,7 +587,15 @@ func subst(e Expr, m map[string]Expr) Expr {
 				vars = append(vars, qv)
 			}
 		}
-		return &Quant{x.Forall, vars, subst(x.Body, nm)}
+		var trigs [][]Expr
+		for _, tg := range x.Triggers {
+			var nt []Expr
+			for _, t := range tg {
+				nt = append(nt, subst(t, nm))
+			}
+			trigs = append(trigs, nt)
+		}
+		return &Quant{x.Forall, vars, subst(x.Body, nm), trigs}
 	}
 	return e
 }
